@@ -117,7 +117,7 @@ def build(rnd, kind, opts=None):
     elif kind == "p2tr-script":
         isk, internal, xsk, leaf_script, path, lh, root, q, par = s.tap
         ht = o.get("hashtype", rnd.choice((0, 0, 1, 2, 3, 0x81, 0x83)))
-        annex = (b"\x50" + rb(rnd, rnd.choice((0, 1, 40)))) if o.get("annex", rnd.random() < 0.2) else None
+        annex = (b"\x50" + rb(rnd, rnd.choice((0, 1, 40, 600)))) if o.get("annex", rnd.random() < 0.2) else None
         spent = [(signed_amount, spk)]
         d = P.bip341_sighash(tx_now(), idx, spent, ht, annex=annex, leaf_hash=lh)
         sig = P.schnorr_sign(xsk, d, rb(rnd, 32)) + (bytes([ht]) if ht else b"")
